@@ -65,7 +65,7 @@ var c02ExceptionHooks = map[string]func(c *Check) string{
 }
 
 func runC02(c *Check) {
-	c.Explanation = "Decides structural necessary conditions of C02 on the parse path (the 130 functions of package profile reachable from ParseData, including the decoder closures and the legacy parsers): every successful return of ParseData passes through CheckValid on the returned profile (R1); the path contains no explicit panic and no non-comma-ok type assertion other than the decoder slots' own message type (R2); every index and slice expression — constant, len-k or variable — is in range by a dominating comparison, by the producer of the value, by caller-supplied slice lengths, or by a reviewed invariant (R3); wire-buffer payloads are read only after the matching wire-type check, and unknown or nil decoder slots are skipped (R4); string-table indices are range-checked in getString and dense id tables are indexed only under id < len (part of R3); the one allocation sized by decoded input is bounded by the remaining input (R6); regexp capture groups are indexed within the arity of their pattern (R7); integer divisions by input-derived values are guarded (R8). Not decided: termination and promptness, and that a parsed profile can be reported without a crash (C09)."
+	c.Explanation = "Decides structural necessary conditions of C02 on the parse path (the 130 functions of package profile reachable from ParseData, including the decoder closures and the legacy parsers): every successful return of ParseData passes through CheckValid on the returned profile (R1); the path contains no explicit panic and no non-comma-ok type assertion other than the decoder slots' own message type (R2); every index and slice expression — constant, len-k or variable — is in range by a dominating comparison, by the producer of the value, by caller-supplied slice lengths, or by a reviewed invariant (R3); wire-buffer payloads are read only after the matching wire-type check, and unknown or nil decoder slots are skipped (R4); string-table indices are range-checked in getString and dense id tables are indexed only under id < len (part of R3); the one allocation sized by decoded input is bounded by the remaining input (R6); regexp capture groups are indexed within the arity of their pattern (R7); integer divisions by input-derived values are guarded (R8). Also: the nil scans of CheckValid over the lists of a sample run for every sample (R11). Not decided: termination and promptness, and that a parsed profile can be reported without a crash (C09)."
 	p := c.P
 	root := c.anchorFn("C02-R1", "profile", "ParseData")
 	if root == nil {
